@@ -172,6 +172,8 @@ package turn
 //@   at-call (*UDPConn).HandleInbound assert [C13:inbound-attribution] sameSlice(arg0, attr(msg, stun.AttrData)) && typeis(arg1, *net.UDPAddr) && arg1.(*net.UDPAddr).Port == xorAddrPort(msg, stun.AttrXORPeerAddress) && ipStr(arg1.(*net.UDPAddr).IP) == xorAddrIP(msg, stun.AttrXORPeerAddress)
 //@   ensures [C12:only-completes] (forall k :: haskey(c.trMap.trMap, k) ==> old(haskey(c.trMap.trMap, k)) && valat(c.trMap.trMap, k) == old(valat(c.trMap.trMap, k))) && (forall ch :: closed(ch) == old(closed(ch)))
 //@   assigns entries(c.trMap.trMap), timers, channels
+//@   at-return assert [C12:response-completes-its-transaction] res == nil && (int(msg.Type.Class) == 2 || int(msg.Type.Class) == 3) ==> !has(c.trMap.trMap, trKey)
+//@   at-call (*TCPAllocation).HandleConnectionAttempt assert [C13:attempt-delivered] arg0 == addr && int(arg1) == int(cid)
 //@   at-call (*Transaction).WriteResult assert [C12:result-is-this-response] arg0.Msg == msg && arg0.From == from && arg0.Err == nil
 
 //@ func (*Client).PerformTransaction
@@ -179,6 +181,7 @@ package turn
 //@   at-call (*TransactionMap).Insert assert [C12:registered-before-send] arg0 == trKey && arg1 == tr && tr.nRtx == 0 && tr.interval == c.rto
 //@   at-call invoke net.PacketConn.WriteTo assert [C12:first-send] has(c.trMap.trMap, trKey) && arg1 == to && len(arg0) == len(msg.Raw) && (forall j :: 0 <= j && j < len(arg0) ==> arg0[j] == msg.Raw[j])
 //@   at-call (*Transaction).StartRtxTimer assert [C12:timer-after-send] recv == tr && has(c.trMap.trMap, trKey) && c.trMap.trMap[trKey] == tr
+//@   ensures [C12:error-result-is-an-error] !ignoreResult && res1 == nil ==> res0.Err == nil
 //@   ensures [C12:nothing-left-on-write-error] ignoreResult && res1 != nil ==> forall k :: haskey(c.trMap.trMap, k) ==> old(haskey(c.trMap.trMap, k))
 
 //@ func (*Client).Close
